@@ -1118,4 +1118,33 @@ def corpus(r):
                 if kind in ("delta", "joint"):
                     g.emit({"op": "reduce_real", "fn": "logaddexp", "a": ind, "vars": ["x"]})
         out.append((g.program, "log"))
+    # 11. successive substitutions of real values into a Gaussian over three real inputs, in every
+    #     order of two inputs (lazily these fuse into one Subs whose pairs are not in input order)
+    g = Gen(r, family="log", max_event=0, real_vars=False)
+    reals = [[n, REALS[n]] for n in sorted(REALS)]
+    r.shuffle(reals)
+    dim = sum((int(np.prod(sh)) if sh else 1) for _, sh in reals)
+    batch = [[b, g.sizes[b]] for b in r.sample(NAMES[:2], r.choice([0, 1]))]
+    nb_total = int(np.prod([sz for _, sz in batch])) if batch else 1
+    leaf = g.emit(
+        {
+            "op": "gaussian",
+            "batch": batch,
+            "reals": reals,
+            "mats": [round(r.gauss(0, 1), 3) for _ in range(nb_total * dim * dim)],
+            "locs": [round(r.gauss(0, 1), 3) for _ in range(nb_total * dim)],
+        }
+    )
+    if leaf:
+        vals = {}
+        for n, sh in reals:
+            inputs = [list(batch[0])] if batch and r.random() < 0.5 else []
+            shape = [sz for _, sz in inputs] + list(sh)
+            vals[n] = g.emit({"op": "tensor", "inputs": inputs, "shape": shape, "dtype": "float", "data": g.data("real", int(np.prod(shape)) if shape else 1)})
+        for n1, n2 in itertools.permutations([n for n, _ in reals], 2):
+            if vals[n1] and vals[n2]:
+                s1 = g.emit({"op": "subs", "a": leaf, "subs": [[n1, ["val", vals[n1]]]]})
+                if s1:
+                    g.emit({"op": "subs", "a": s1, "subs": [[n2, ["val", vals[n2]]]]})
+    out.append((g.program, "log"))
     return [(p, f) for p, f in out if len(p) >= 2]
